@@ -454,7 +454,7 @@ func (w *walker) store(lhs ast.Expr, val Value, node ast.Node, rhs ast.Expr, idx
 		if id, ok := unparen(lhs).(*ast.Ident); ok && id.Name != "_" {
 			if obj := w.identObj(id, fr); obj != nil {
 				bv := val
-				if w.isShared(obj) || tok != token.ASSIGN && tok != token.DEFINE {
+				if w.isShared(obj) && !(val.Kind == VFuncLit && w.boundOnce[obj]) || tok != token.ASSIGN && tok != token.DEFINE {
 					bv = Value{}
 				}
 				st.env = st.env.bind(obj, bv)
